@@ -103,6 +103,14 @@ fn visit<'a>(
             }
             Ok(())
         }
-        Type::Name(ident) => visit_name(types, visited, ident.name),
+        Type::Name(ident) => {
+            visit_name(types, visited, ident.name)?;
+            // The arguments become part of the instantiated type (e.g. the
+            // `A` in `Option[A]` or `List[A]`), so they can close a cycle too.
+            for ty in &ident.arguments {
+                visit(types, visited, ty)?;
+            }
+            Ok(())
+        }
     }
 }
